@@ -87,6 +87,25 @@ def coq_bytes(b):
     return "[" + ";".join(str(x) for x in b) + "]"
 
 
+def respell_setting(name, value, salt):
+    """A non-canonical spelling of a setting's value that gunicorn's validators accept and normalise (what a configuration file
+    or the command line may hold): keyword settings in other letter case / padded with blanks, booleans and integers as
+    strings.  Chosen by a hash of (salt, name): two thirds of the configurations keep the canonical spelling.  The models always
+    see the canonical value - the running code must not see anything else either."""
+    import zlib
+    h = zlib.crc32(repr((salt, name)).encode())
+    if h % 3:
+        return value
+    k = (h // 3) % 4
+    if name == "header_map" and isinstance(value, str):
+        return [value.upper(), value.capitalize(), " " + value, value + "  "][k]
+    if isinstance(value, bool):
+        return [("True" if value else "False"), ("true" if value else "false"), (" TRUE" if value else "FALSE "), value][k]
+    if isinstance(value, int) and name.startswith("limit_request"):
+        return [str(value), " %d" % value, value, value][k]
+    return value
+
+
 def coq_bool(b):
     return "true" if b else "false"
 
